@@ -339,7 +339,7 @@ def gen_hard_rects(rng, mode: str):
     """rectangles of a hard module and whether they were built as a STOG (trunk + branches)."""
     u = 1.0 if mode == "Q" else rng.choice([1.0, 0.1, 1 / 3, 2.5])
     ox, oy = (rng.randint(0, 6) * u, rng.randint(0, 6) * u)
-    kind = rng.choice(["single", "stog", "stog", "twin", "scattered", "chain"])
+    kind = rng.choice(["single", "stog", "stog", "twin", "scattered", "chain"] * 4 + ["branch-overlap", "dup-branch"])
     tw, th = rng.randint(2, 6), rng.randint(2, 6)
     X0, Y0 = ox + 4 * u, oy + 4 * u
     trunk = (X0, Y0, X0 + tw * u, Y0 + th * u)
@@ -361,6 +361,10 @@ def gen_hard_rects(rng, mode: str):
                 rects.append((trunk[2], ya, trunk[2] + d, yb) if side == "E" else (X0 - d, ya, X0, yb))
         rng.shuffle(rects)
         return [rect_from_box(rng, *r) for r in rects], True
+    if kind in ("branch-overlap", "dup-branch"):
+        # ILL-FORMED on purpose (also in the "valid" stream, where only the verdicts are compared): a proper trunk whose
+        # branches overlap EACH OTHER -- no branch overlaps the trunk, so the module still is a STOG
+        return [rect_from_box(rng, *r) for r in overlapping_branches(rng, u, X0, Y0, tw, th, kind)], True
     if kind == "twin":   # two rectangles with a full common side: both are trunk candidates
         h2 = rng.randint(1, 6)
         rects = [trunk, (X0, trunk[3], trunk[2], trunk[3] + h2 * u)]
@@ -374,6 +378,30 @@ def gen_hard_rects(rng, mode: str):
     gap = rng.randint(1, 3) * u
     rects = [trunk, (trunk[2] + gap, Y0, trunk[2] + gap + 2 * u, Y0 + 2 * u)]
     return [rect_from_box(rng, *r) for r in rects], False
+
+
+def overlapping_branches(rng, u, X0, Y0, tw, th, kind="branch-overlap"):
+    """boxes of a trunk (tw×th units at (X0, Y0)) with two branches on one side that overlap each other (intersecting
+    spans, or the same branch twice), possibly a further clean branch; shuffled."""
+    tw = max(tw, 3)
+    trunk = (X0, Y0, X0 + tw * u, Y0 + th * u)
+    d1, d2 = rng.randint(1, 3) * u, rng.randint(1, 3) * u
+    side = rng.choice("NS")
+    a, b = 0, rng.randint(2, tw - 1)            # first span  [a, b]
+    c, d = rng.randint(1, b - 1), tw            # second span [c, d], c < b: they intersect on [c, b]
+    if kind == "dup-branch":
+        c, d, d2 = a, b, d1
+    if side == "N":
+        b1 = (X0 + a * u, trunk[3], X0 + b * u, trunk[3] + d1)
+        b2 = (X0 + c * u, trunk[3], X0 + d * u, trunk[3] + d2)
+        other = (X0, Y0 - u, X0 + u, Y0)
+    else:
+        b1 = (X0 + a * u, Y0 - d1, X0 + b * u, Y0)
+        b2 = (X0 + c * u, Y0 - d2, X0 + d * u, Y0)
+        other = (X0, trunk[3], X0 + u, trunk[3] + u)
+    rects = [trunk, b1, b2] + ([other] if rng.random() < 0.4 else [])
+    rng.shuffle(rects)
+    return rects
 
 
 def gen_soft_rects(rng, mode: str):
@@ -437,8 +465,12 @@ def gen_module(rng, mode: str) -> tuple[dict, str]:
                 info["aspect_ratio"] = [1, 1]
             else:
                 info["aspect_ratio"] = [0, rng.choice([1, 2.5])]
-        if rng.random() < 0.4:
-            info["rectangles"] = maybe_flat(rng, gen_soft_rects(rng, mode))
+        if rng.random() < 0.45:
+            if rng.random() < 0.5:
+                rects = gen_soft_rects(rng, mode)
+            else:   # a trunk with branches in random order: create_stog will reorder the list of a soft module too
+                rects = [r + ([rng.choice(REGIONS)] if rng.random() < 0.2 else []) for r in gen_hard_rects(rng, mode)[0]]
+            info["rectangles"] = maybe_flat(rng, rects)
         if rng.random() < 0.15:
             info[rng.choice(["hard", "fixed", "flip"])] = False
     elif kind in ("hard", "fixed"):
@@ -617,12 +649,23 @@ def inject(rng, doc: dict, mode: str, cls: str):
         if m is None:
             return None
         rl = copy.deepcopy(_rect_list(mods[m]))
-        r = rng.choice(rl)
-        x, y, w, h = (float(v) for v in r[:4])
-        # a copy shifted by a quarter of its size: overlaps the original on 9/16 of its area
-        rl.insert(rng.randint(0, len(rl)), [x + w / 4, y + h / 4, w, h])
+        how = rng.choice(["shifted-copy", "branch-overlap", "dup-branch", "dup-any"])
+        if how == "shifted-copy":
+            r = rng.choice(rl)
+            x, y, w, h = (float(v) for v in r[:4])
+            # a copy shifted by a quarter of its size: overlaps the original on 9/16 of its area
+            rl.insert(rng.randint(0, len(rl)), [x + w / 4, y + h / 4, w, h])
+            mods[m].pop("flip", None)
+        elif how == "dup-any":
+            # the same rectangle twice (a duplicated branch keeps the module a STOG: only the pairwise check sees it)
+            rl.insert(rng.randint(0, len(rl)), list(rng.choice(rl)))
+        else:
+            # a proper trunk with two branches that overlap each other (never the trunk): still a STOG
+            u = 1.0 if mode == "Q" else rng.choice([1.0, 0.1, 2.5])
+            X0, Y0 = (4 + rng.randint(0, 6)) * u, (4 + rng.randint(0, 6)) * u
+            rl = [rect_from_box(rng, *r) for r in
+                  overlapping_branches(rng, u, X0, Y0, rng.randint(3, 6), rng.randint(2, 6), how)]
         mods[m]["rectangles"] = rl
-        mods[m].pop("flip", None)
         return d
     if cls == "unknown-attr":
         if names and rng.random() < 0.8:
